@@ -8,6 +8,10 @@ from cxx2c import Unsupported
 import residuals
 import scaling
 import newton
+import compose
+import reduce as reduce_rows
+import invariant
+import swo
 
 # (n variables, p equalities, m inequalities): quick tier = no equalities, no inequalities, a mixed one and the largest one
 QUICK_SHAPES = [(1, 0, 1), (2, 1, 2), (3, 2, 2), (2, 1, 0)]
@@ -32,7 +36,7 @@ def build(tier):
     shapes = ALL_SHAPES if tier == 'thorough' else QUICK_SHAPES
     # one clang run per translation unit / filter, before the walks fan out
     core.parallel([(lambda tu=tu, flt=flt: astload.dump(tu, flt)) for tu, flt in (
-        (residuals.TU, residuals.FLT), (residuals.STATE_TU, residuals.STATE_FLT), (scaling.TU, scaling.NORM_FLT), (scaling.TU, 'reducer_t'), (scaling.UTIL_TU, scaling.UTIL_FLT))])
+        (residuals.TU, residuals.FLT), (residuals.STATE_TU, residuals.STATE_FLT), (scaling.TU, scaling.NORM_FLT), (scaling.TU, 'reducer_t'), (scaling.UTIL_TU, scaling.UTIL_FLT), (reduce_rows.UTIL_TU, reduce_rows.UTIL_FLT))])
     jobs = []
     for (n, p, m) in shapes:
         for hasQ in (True, False):
@@ -43,6 +47,10 @@ def build(tier):
         jobs.append(guarded(lambda a=(n, p, m): residuals.residual_vcs(*a, info), f'solver_state_t::residual {(n, p, m)}'))
     jobs += [guarded(j, what) for j, what in scaling.jobs(tier, shapes, info)]
     jobs += [guarded(j, what) for j, what in newton.jobs(tier, shapes, info)]
+    jobs += [guarded(j, what) for j, what in compose.jobs(tier, shapes, info)]
+    jobs += [guarded(j, what) for j, what in reduce_rows.jobs(tier, shapes, info)]
+    jobs += [guarded(j, what) for j, what in invariant.jobs(tier, shapes, info)]
+    jobs += [guarded(j, what) for j, what in swo.jobs(tier, shapes, info)]
     vcs = []
     for r in [j() for j in jobs]:
         vcs += r
